@@ -127,9 +127,31 @@ pub fn mutants_of(text: &str, caps: usize) -> Vec<Mutant> {
                 }
             }
             if ["minOccurs", "maxOccurs", "value", "use", "location", "soapAction", "schemaLocation", "namespace", "targetNamespace"].contains(&an) {
-                for v in ["-1", "99999999999999999999", "unbounded", "\u{e9}\u{20ac}", "{}", "\"", "a b"] {
+                for v in ["-1", "99999999999999999999", "unbounded", "\u{e9}\u{20ac}", "{}", "\"", "a b", "http://zv.example/gr\u{f6}\u{df}e", "urn:ab\u{e9}cd", "http://zv.example/x/"] {
                     out.push(Mutant { kind: "alter-attribute", detail: format!("<{tag}> @{an} = {v}"), text: splice(text, vr.clone(), &crate::schema::esc(v)) });
                 }
+            }
+        }
+    }
+    // namespace declarations are not attributes of the tree: alter their values textually
+    {
+        let mut pos = 0;
+        let mut n = 0;
+        while let Some(i) = text[pos..].find("xmlns") {
+            let start = pos + i;
+            pos = start + 5;
+            let Some(eq) = text[start..].find("=\"") else { break };
+            if eq > 40 {
+                continue;
+            }
+            let vstart = start + eq + 2;
+            let Some(vlen) = text[vstart..].find('"') else { break };
+            n += 1;
+            if n > 8 {
+                break;
+            }
+            for v in ["", "http://zv.example/gr\u{f6}\u{df}e", "urn:ab\u{e9}cd", "http://zv.example/types/", "http://zv.example/1st", "http://www.w3.org/2001/XMLSchema", "a b"] {
+                out.push(Mutant { kind: "alter-xmlns", detail: format!("declaration {n} = {v}"), text: splice(text, vstart..vstart + vlen, v) });
             }
         }
     }
@@ -385,7 +407,7 @@ pub fn check(tier: &str) -> i32 {
     rep.set("evaluations", json!(done));
     rep.set("max_depth", json!(if tier == "thorough" { 2 } else { 1 }));
     rep.set("exhaustive", json!(!stopped));
-    rep.set("bound", json!(format!("all single structural mutations (delete/duplicate/move/swap element, delete/empty/alter attribute, retarget every QName attribute to every declared name / itself / undeclared prefix / dangling name, rename to an existing name, truncate at every tag boundary, replace root) of {} seed inputs{}; all token documents of <= {} tokens over an {}-token alphabet ({} documents); raw non-XML texts", seeds.len(), if tier == "thorough" { "; all pairs of mutations for the generated seeds s0 and w0; signature-reduced single mutations of the large inputs" } else { "" }, tok_len, TOKENS.len(), n_tok)));
+    rep.set("bound", json!(format!("all single structural mutations (delete/duplicate/move/swap element, delete/empty/alter attribute, alter namespace declarations, retarget every QName attribute to every declared name / itself / undeclared prefix / dangling name, rename to an existing name, truncate at every tag boundary, replace root) of {} seed inputs{}; all token documents of <= {} tokens over an {}-token alphabet ({} documents); raw non-XML texts", seeds.len(), if tier == "thorough" { "; all pairs of mutations for the generated seeds s0 and w0; signature-reduced single mutations of the large inputs" } else { "" }, tok_len, TOKENS.len(), n_tok)));
     rep.set("per_seed", json!(per_seed));
     rep.set("outcome_classes", json!(classes));
     rep.set("distinct_error_kinds", json!(err_kinds.len()));
